@@ -281,6 +281,10 @@ func (x *Enc) encodeTop() {
 				if x.countHits[cs[0]] > 0 {
 					goal = "false"
 				}
+				if strings.HasPrefix(cs[1], "builtin:") && callsBuiltin(fn, cs[1][len("builtin:"):]) {
+					// syntactic: the function and every closure it makes (a deferred clean-up is one)
+					goal = "false"
+				}
 				x.addObl("forbid", fmt.Sprintf("%s.forbid[%s].no_call_site", shortFn(fn), cs[1]), "the function must not call "+cs[1], token.NoPos, "true", goal)
 				continue
 			}
@@ -336,6 +340,27 @@ func (x *Enc) encodeTop() {
 			}
 		}
 	}
+}
+
+// callsBuiltin: fn or a closure made (transitively) inside it has a call, go or defer of the named builtin.
+func callsBuiltin(fn *ssa.Function, name string) bool {
+	for _, b := range fn.Blocks {
+		for _, in := range b.Instrs {
+			ci, ok := in.(ssa.CallInstruction)
+			if !ok {
+				continue
+			}
+			if bi, isB := ci.Common().Value.(*ssa.Builtin); isB && bi.Name() == name {
+				return true
+			}
+		}
+	}
+	for _, af := range fn.AnonFuncs {
+		if callsBuiltin(af, name) {
+			return true
+		}
+	}
+	return false
 }
 
 func pkgPathOf(fn *ssa.Function) string {
